@@ -503,4 +503,6 @@ Proof.
     unfold mk_default in M. destruct d as [c|].
     + destruct (kind_of c); [|discriminate]. destruct (default_type_bad _ _); inversion M; subst. reflexivity.
     + destruct (k0 =? 1); inversion M; subst; [reflexivity|]. eapply rd_attr_app. destruct Hi as [_ [H1 _]]. eapply H1; eauto.
+  - unfold step in E. simpl in E. unfold do_export_shape in E.
+    repeat (match type of E with context [match ?x with _ => _ end] => destruct x end); inversion E; subst; reflexivity.
 Qed.
